@@ -49,7 +49,7 @@ C = {
   "Trusted: the spec tables in /verif/spec (transcribed from LoRaWAN 1.0.4/1.1), porcupine, Go race detector, statement-granularity preemption. Re-registration with size 0 and negative sizes are outside the judged histories.",
   "deterministic simulation: seeded scheduler + history/linearizability oracle + deterministic race oracle"),
 "C10": ("W-ISO",
-  "Seeded search over schedules x buffer-reuse timing: a receive task decodes packets from one reusable buffer / a pool arena and hands frames to 2-4 workers that validate, decrypt and re-marshal them while the memory is being overwritten; workers also run exported crypto on arena windows bordering a neighbour's region, decode into used values of every decodable type, mutate a band next to an observer instance; an operator registers MAC commands. Decided by differential oracles against the same call on private data (aliasing, spill, read-only, reuse, band independence), by repeating every outcome observed under concurrency alone after the run (interference), and by the race detector as a deterministic function of the seed. Functional correctness of those outcomes is deliberately not judged here. One run in thirty is a crowd of 34-57 sessions doing MIC/crypto at the same time. Sampling, not proof.",
+  "Seeded search over schedules x buffer-reuse timing: a receive task decodes packets from one reusable buffer / a pool arena and hands frames to 2-4 workers that validate, decrypt and re-marshal them while the memory is being overwritten; workers also run exported crypto on arena windows bordering a neighbour's region, decode into used values of every decodable type (also after their owner set numbers, flags and addresses in them), pass hand-built frames in unusual states and owner-set values to the operations that only inspect them, mutate a band next to an observer instance; an operator registers MAC commands. Decided by differential oracles against the same call on private data (aliasing, spill, read-only, reuse, band independence), by repeating every outcome observed under concurrency alone after the run (interference), and by the race detector as a deterministic function of the seed. Functional correctness of those outcomes is deliberately not judged here. One run in thirty is a crowd of 34-57 sessions doing MIC/crypto at the same time. Sampling, not proof.",
   "Trusted: reflection-based deep snapshots, the keystream model, Go race detector (shadow-cell eviction could in principle drop an access), statement-granularity preemption.",
   "deterministic simulation: seeded scheduler + buffer-reuse fault timing + deterministic race oracle + differential isolation oracles"),
 "C14": ("W-ADR",
@@ -61,7 +61,7 @@ C = {
   "Trusted: the channel-list model in /verif/spec; which values count as 'produced by the band' (defaults and custom channels the operator chose on the region's grid). ISM2400 encodability: see known findings.",
   "deterministic simulation: seeded operation histories + refinement against an executable reference model + cross-layer closure"),
 "C16": ("W-JOIN",
-  "Seeded search over schedules x fault sequences: 1-3 network-server tasks push join-, rejoin- and HomeNS-requests of 1-6 independently modelled devices through ONE real join-server handler (via the real backend client or raw HTTP bodies), interleaved at every statement, with faults at every seam (four storage callbacks that fail, fail once, are slow in virtual time or answer after the client has gone; devices provisioned and KEKs re-keyed during the run; body reader, response writer incl. use after return, transport loss/duplication/truncation, radio corruption), up to 29 connections at once. Decided by an independent device model: it decrypts the join-accept, checks its MIC, the echoed fields and the configured JoinNonce, unwraps the key envelopes with the configured KEKs (own RFC 3394) and compares them with the keys it derives; plus error-code, mirroring, narrow fault relaxation, cross-request independence (race oracle) and a clean join after faults stop. Sampling, not proof.",
+  "Seeded search over schedules x fault sequences: 1-3 network-server tasks push join-, rejoin- and HomeNS-requests of 1-6 independently modelled devices through ONE real join-server handler (via the real backend client or raw HTTP bodies), interleaved at every statement, with faults at every seam (four storage callbacks that fail, fail once, are slow in virtual time or answer after the client has gone; devices provisioned and KEKs re-keyed during the run; body reader, response writer incl. use after return, transport loss/duplication/truncation, radio corruption), up to 29 connections at once; configurations with and without the optional callbacks, with other handlers in the process. Decided by an independent device model: it decrypts the join-accept, checks its MIC, the echoed fields and the configured JoinNonce, unwraps the key envelopes with the configured KEKs (own RFC 3394) and compares them with the keys it derives; plus error-code, mirroring, narrow fault relaxation, cross-request independence (race oracle) and a clean join after faults stop. Sampling, not proof.",
   "Trusted: the device model and key derivations in /verif/spec, Go race detector; logrus stubbed, sync.Pool made a deterministic per-run LIFO in the worker build; Redis/async client mode not simulated. Rejoin session keys: see known findings.",
   "deterministic simulation: seeded scheduler + seam fault injection + independent device-model oracle + deterministic race oracle"),
 }
